@@ -4,8 +4,6 @@ import (
 	"errors"
 	"fmt"
 	"math"
-	"strconv"
-	"strings"
 
 	"github.com/shopspring/decimal"
 	"github.com/verily-src/fhirpath-go/fhirpath/internal/expr"
@@ -50,15 +48,17 @@ func Abs(ctx *expr.Context, input system.Collection, args ...expr.Expression) (s
 		// exact: a float64 keeps 15-17 significant digits only.
 		return system.Collection{system.Decimal(decimal.Decimal(number).Abs())}, nil
 	case system.Quantity:
-		quantity := strings.Split(number.String(), " ")
-		// Input type conversion
-		f, err := strconv.ParseFloat(quantity[0], 64)
+		// Exact, and whatever the unit looks like (it may be empty or contain blanks): a quantity below its own
+		// negation is negative.
+		negated := number.Negate()
+		negative, err := number.Less(negated)
 		if err != nil {
 			return nil, err
 		}
-		// Absolution number
-		res := math.Abs(f)
-		return system.Collection{system.MustParseQuantity(fmt.Sprintf("%f", res), quantity[1])}, nil
+		if negative {
+			return system.Collection{negated}, nil
+		}
+		return system.Collection{number}, nil
 	}
 	return nil, errors.New("input is not a number")
 }
